@@ -27,6 +27,10 @@ Theorem C06_terminal_partial_L2 : C06_terminal_pool.
 Proof. exact C06_terminal_main. Qed.
 Theorem C06_zero_pool_L2 : C06_zero_pool_full.
 Proof. exact C06_zero_pool_main. Qed.
+(* zero pool runners, a caller that uses sync and poll-and-drop but does not also await futures: Main.C06_zero_pool_sync_full
+   (from the sync-returns theorem of PropsC04.v; the other callers are arbitrary) *)
+Theorem C06_zero_pool_sync_L2 : C06_zero_pool_sync_full.
+Proof. exact C06_zero_pool_sync_main. Qed.
 Theorem C06_terminal_with_code_facts_L2 : C06_terminal_pool_F code_ffacts.
 Proof. exact C06_terminal_pool_code. Qed.
 Theorem C06_needs_park_before_wake_refuted_L2 : ~ C06_terminal_pool_F wake_with_before_park.
@@ -39,3 +43,4 @@ Print Assumptions C06_zero_pool_L2.
 Print Assumptions C06_terminal_with_code_facts_L2.
 Print Assumptions C06_needs_park_before_wake_refuted_L2.
 Print Assumptions C06_needs_unconditional_unpark_refuted_L2.
+Print Assumptions C06_zero_pool_sync_L2.
